@@ -640,7 +640,9 @@ func (c *wsConn) addCount(s *Subscription, direct bool) error {
 // been sent to the client, sent should bet true. If direct is true, sent is
 // ignored.
 func (c *wsConn) removeCount(s *Subscription, direct bool, sent bool, count int, tryDelete bool) {
-	if s.direct+s.indirect+s.indirectsent == 0 {
+	// A disposed subscription is no longer in c.subs. Its rid may by now belong
+	// to a new subscription, which tryDelete must not remove in its place.
+	if s.state == stateDisposed || s.direct+s.indirect+s.indirectsent == 0 {
 		return
 	}
 
